@@ -470,6 +470,9 @@ class Sym:
     def _cmp(s, o, op):
         if is_nan(o):
             return False
+        if isinstance(o, (float, _np.floating)) and o in (math.inf, -math.inf):
+            # finite symbolic value against an infinity: decided without the solver
+            return bool(op(0.0, float(o)))
         if isinstance(o, Sym) and s.lg is not None and o.lg is not None:
             return SymBool(op(s.lg, o.lg))
         return SymBool(op(s.e, Sym.lift(o)))
